@@ -21,14 +21,14 @@ RULE = (
     "activity x logging configuration; hash seed unset; hash seed 1) and all digests must equal the baseline. evaluations = seeded calls "
     "compared with their baseline; distinct_nontrivial = distinct (cell, algorithm, prelude, logging configuration / hash seed) tuples"
 )
-REQUIRED = {"calls_compared": 90, "logging_configs_compared": 20, "dirty_history_compared": 30, "hashseed_compared": 16, "fit_cases": 5, "personalize_cases": 3, "reused_settings_compared": 4, "simulate_cases_table_driven": 1, "scipy_cases_with_two_workers": 1, "cases_with_numpy_or_float_seed": 2}
+REQUIRED = {"calls_compared": 90, "logging_configs_compared": 20, "dirty_history_compared": 30, "hashseed_compared": 16, "fit_cases": 4, "personalize_cases": 3, "reused_settings_compared": 4, "simulate_cases_table_driven": 1, "scipy_cases_with_two_workers": 1, "cases_with_numpy_or_float_seed": 2, "fit_cases_with_short_adaptation_windows": 2}
 ASSUMPTIONS = [
     "bit-identity of sha256 digests over tensor bytes; matplotlib backend Agg; logs written under a per-case temporary directory",
     "logging grid restricted to what the settings class accepts (plot periodicity a multiple of save periodicity)",
 ]
 CELLS = [("logistic", 2, 1, "gaussian-diagonal"), ("logistic", 1, 0, "gaussian-scalar"), ("linear", 2, 1, "gaussian-diagonal"), ("joint", 3, 1, None),
          ("logistic", 3, 2, "gaussian-scalar"), ("shared_speed_logistic", 3, 1, None), ("logistic", 2, 1, "bernoulli"), ("mixture_logistic", 3, 2, None)]
-WHATS = ["fit", "fit", "scipy_minimize", "mean_posterior", "mode_posterior", "fit", "simulate", "fit"]
+WHATS = ["fit", "fit", "scipy_minimize", "mean_posterior", "mode_posterior", "scipy_minimize", "simulate", "fit"]
 PRELUDES = [[], ["consume_rng"], ["reseed_other"], ["unrelated_fit"], ["consume_rng", "unrelated_fit"], ["unrelated_fit", "reseed_other"], ["reseed_other", "consume_rng"]]
 
 
@@ -95,11 +95,19 @@ def run_shard(spec, ctx):
             settings = {"n_iter": int(rng.integers(8, 16)), "sampler_pop": ["Gibbs", "FastGibbs", "Metropolis-Hastings"][(spec["k"] + i) % 3]}
             if rng.random() < 0.4:
                 settings["annealing"] = {"do_annealing": True, "initial_temperature": 5.0, "n_plateau": 3, "n_iter": None, "n_iter_frac": 0.6}
+            if (spec["k"] + i) % 2 == 0:
+                # short adaptation windows: the proposal scales adapt several times within these short runs (iterations 5, 10, 15), so that
+                # whatever the logging does between two iterations meets an adaptation step
+                win = {"acceptation_history_length": 5, "mean_acceptation_rate_target_bounds": [0.2, 0.4], "adaptive_std_factor": 0.1}
+                settings["sampler_ind_params"] = dict(win)
+                settings["sampler_pop_params"] = dict(win, random_order_dimension=True)
+                settings["n_iter"] = max(settings["n_iter"], 16)
+                ctx.count("fit_cases_with_short_adaptation_windows")
         elif what in ("mean_posterior", "mode_posterior"):
             settings = {"n_iter": 12, "n_burn_in_iter": 4}
         elif what == "scipy_minimize":
             settings = {"use_jacobian": False}
-            if (spec["k"] + i) % 2 == 0:
+            if (spec["k"] + i) % 2 == 1:
                 settings["n_jobs"] = 2  # documented option: the seed, not the worker processes, decides the result
                 ctx.count("scipy_cases_with_two_workers")
         tmp = tempfile.mkdtemp(prefix="vf-c11-")
@@ -127,6 +135,13 @@ def run_shard(spec, ctx):
                 continue
             ref = base["digests"][0]
             ctx.count("fit_cases" if what == "fit" else ("simulate_cases" if what == "simulate" else "personalize_cases"))
+            ctx.count("process_setting_checks")
+            if "torch-threads-changed" in ref["final"]:
+                # "whatever was run earlier in the process": a call that silently changes a process-wide numeric setting (here the number of
+                # intra-op threads torch uses, which decides how large reductions are chunked) makes every LATER result depend on it
+                ctx.violation(f"repro/{what}/changes-a-process-wide-numeric-setting", f"the seeded {what} changed torch's number of threads for the whole interpreter "
+                              f"({ref['final'].rsplit(':', 1)[-1]})", case)
+                continue
             # (b) dirty interpreter: preludes x logging configurations
             variants = []
             n_var = 5 if ctx.tier == "quick" else 12
